@@ -88,7 +88,8 @@ def run_worker(pid, shard, tmpdir, idx, timeout):
 def merge(reports):
     m = {
         'evaluations': 0, 'trivial': 0, 'classes': set(), 'samples': [],
-        'violations': [], 'n_violations': 0, 'viol_kinds': Counter(),
+        'violations': [], 'n_violations': 0, 'viol_kinds': Counter(), 'viol_groups': Counter(),
+        'overflow_groups': 0,
         'events': Counter(), 'forced': Counter(), 'counters': Counter(),
         'maxdev': {}, 'inconclusive': [], 'extra': {},
     }
@@ -105,6 +106,8 @@ def merge(reports):
             m['violations'].append(v)
         m['n_violations'] += r.get('n_violations', 0)
         m['viol_kinds'].update(r.get('viol_kinds', {}))
+        m['viol_groups'].update(r.get('viol_groups', {}))
+        m['overflow_groups'] += r.get('overflow_groups', 0)
         m['events'].update(r.get('events', {}))
         m['forced'].update(r.get('forced', {}))
         m['counters'].update(r.get('counters', {}))
@@ -134,8 +137,8 @@ def classify(pid, violations):
     return known_hits, unlisted, listed
 
 
-def write_replay(pid, tier, seed, v, n):
-    d = os.path.join(HERE, 'replay', pid)
+def write_replay(pid, tier, seed, v, n, scratch=False):
+    d = os.path.join(HERE, 'replay', '_scratch' if scratch else '', pid)
     os.makedirs(d, exist_ok=True)
     path = os.path.join(d, f'{tier}-seed{seed}-{n:03d}-{v["kind"]}.json'.replace('/', '_'))
     with open(path, 'w') as f:
@@ -198,20 +201,21 @@ def main(argv=None):
                 f'counter {name} = {m["counters"].get(name, 0)} (< {n})')
 
     known_hits, unlisted, listed = classify(pid, m['violations'])
-    # violations that were counted but not kept in full cannot be classified:
-    # they count as unlisted unless every kept one of the same kind is known.
-    kept_by_kind = Counter(v['kind'] for v in m['violations'])
-    unl_kinds = {v['kind'] for v in unlisted}
+    # witnesses beyond the first three of a (kind, mechanism keys) group are only counted; they
+    # share kind and keys with the kept representatives and are classified with them. A group
+    # that lost all its representatives (overflow) counts as unlisted.
+    unl_groups = {v.get('group') for v in unlisted}
+    kept_by_group = Counter(v.get('group') for v in m['violations'])
     dropped_unknown = sum(
-        n - kept_by_kind.get(k, 0) for k, n in m['viol_kinds'].items() if k in unl_kinds
-    )
+        n - kept_by_group.get(g, 0) for g, n in m['viol_groups'].items() if g in unl_groups
+    ) + m['overflow_groups']
 
     replay_paths = []
     seen_kinds = Counter()
     for v in unlisted:
         seen_kinds[v['kind']] += 1
         if seen_kinds[v['kind']] <= 3 and len(replay_paths) < 12:
-            replay_paths.append((v, write_replay(pid, a.tier, seed, v, len(replay_paths))))
+            replay_paths.append((v, write_replay(pid, a.tier, seed, v, len(replay_paths), scratch=a.no_evidence)))
 
     wall = time.time() - t0
     distinct = len(m['classes'])
